@@ -72,7 +72,7 @@ def handle (line : String) : String :=
       else if op.startsWith "multi." then handleMulti op j
       else if op.startsWith "grid." || op.startsWith "tuner." then handleGrid op j
       else if op.startsWith "sel." then handleSel op j
-      else if op.startsWith "loop." || op.startsWith "pool." then handleLoop op j
+      else if op.startsWith "loop." || op.startsWith "pool." || op.startsWith "run." then handleLoop op j
       else err s!"unknown op {op}"
     match r with
     | .ok v => v.compress
